@@ -3,4 +3,5 @@ PROPERTIES = {
     "C01": ["contracts.c01"],
     "C16": ["contracts.c16"],
     "C09": ["contracts.c09"],
+    "C17": ["contracts.c17"],
 }
